@@ -13,15 +13,25 @@ FORBIDDEN = re.compile(r"\bsorry\b|\badmit\b|^\s*axiom\s|native_decide|bv_decide
 
 
 class Lock:
+    """exclusive lock on the lake project, re-entrant within one process (regenerating the model files, building and taking
+    the private copy of the driver must be ONE critical section: another check may be running against another source tree)"""
+    _depth = 0
+    _file = None
+
     def __enter__(self):
-        os.makedirs(os.path.join(LEAN, ".lake"), exist_ok=True)
-        self.f = open(os.path.join(LEAN, ".lake", "verif.lock"), "w")
-        fcntl.flock(self.f, fcntl.LOCK_EX)
+        if Lock._depth == 0:
+            os.makedirs(os.path.join(LEAN, ".lake"), exist_ok=True)
+            Lock._file = open(os.path.join(LEAN, ".lake", "verif.lock"), "w")
+            fcntl.flock(Lock._file, fcntl.LOCK_EX)
+        Lock._depth += 1
         return self
 
     def __exit__(self, *a):
-        fcntl.flock(self.f, fcntl.LOCK_UN)
-        self.f.close()
+        Lock._depth -= 1
+        if Lock._depth == 0:
+            fcntl.flock(Lock._file, fcntl.LOCK_UN)
+            Lock._file.close()
+            Lock._file = None
 
 
 def write_if_changed(path, content):
